@@ -97,7 +97,7 @@ func injectNulls(n *Node, r *rand.Rand) int {
 }
 
 var c15Texts = []string{"note", "x := f(1)", "} ) ]", "a \"quoted\" word", "ends with slashes //", "not a */ ... no: star slash is excluded", "unicode é 日本",
-	"two\nlines", "ends with newline\n", "if x {", "return", "TODO(me): fix", "100% sure", "-- dashes --", "`backquote`"}
+	"two\nlines", "ends with newline\n", "two\n\nparagraphs", "if x {", "return", "TODO(me): fix", "100% sure", "-- dashes --", "`backquote`"}
 
 func c15Text(r *rand.Rand, n int) string {
 	t := c15Texts[r.Intn(len(c15Texts))]
@@ -206,6 +206,10 @@ func randomForms(seed int64, nforms, ncb *int) func(n *Node, first bool) string 
 				if n.GoVal != nil && r.Intn(4) == 0 {
 					d = "funcvariant"
 				}
+			case n.K == "cmt":
+				if r.Intn(2) == 0 {
+					d = "funcvariant" // Commentf
+				}
 			case n.K == "tok" && n.T == "id" && n.V != "":
 				if f, has := pkgFuncs[title(n.V)]; has && r.Intn(2) == 0 && reflect.TypeOf(f).NumIn() == 0 && types.Universe.Lookup(n.V) != nil {
 					d = []string{"helper", "helperfunc"}[r.Intn(2)] // helperfunc: as a package function when it is the first item
@@ -217,7 +221,9 @@ func randomForms(seed int64, nforms, ncb *int) func(n *Node, first bool) string 
 			decided[n] = d
 			if d == "funcvariant" {
 				*nforms++
-				*ncb++
+				if n.K != "cmt" {
+					*ncb++
+				}
 			}
 			if strings.HasPrefix(d, "helper") {
 				*nforms++
